@@ -373,7 +373,36 @@ def h_confirm_many(ctx):
             cur.execute("INSERT INTO prekeys (prekey_id, record) VALUES(?,?)", (base + i, sqlite3.Binary(b"rec%d" % i)))
         conn.commit()
         ids = [base + i for i in range(n)]
-        store.preKeyStore.setAsSent(ids)
+        via = ctx.choice("confirmed_through", ["the store", "the manager", "the manager, debug logging on"]) if n <= 812 else "the store"
+        if via == "the store":
+            store.preKeyStore.setAsSent(ids)
+        else:
+            import logging
+            from yowsup.axolotl.manager import AxolotlManager
+
+            class K(object):
+                def __init__(self, i):
+                    self.i = i
+
+                def getId(self):
+                    return self.i
+            mgr = AxolotlManager(store, "4915900000001")
+            lg = logging.getLogger("yowsup")
+            saved = (lg.level, logging.root.manager.disable, lg.propagate)
+            handler = logging.NullHandler()
+            if via.endswith("debug logging on"):
+                # what the command line client's --debug switch does: the library's logger at DEBUG (records are produced and formatted)
+                lg.setLevel(logging.DEBUG)
+                logging.disable(logging.NOTSET)
+                lg.addHandler(handler)
+                lg.propagate = False
+            try:
+                mgr.set_prekeys_as_sent([K(i) for i in ids])
+            finally:
+                lg.setLevel(saved[0])
+                logging.disable(saved[1])
+                lg.removeHandler(handler)
+                lg.propagate = saved[2]
         conn.close()
         c2 = sqlite3.connect(os.path.join(d, "axolotl.db"))
         pending = sorted(r[0] for r in c2.execute("SELECT prekey_id FROM prekeys WHERE sent_to_server is NULL or sent_to_server = 0").fetchall())
